@@ -328,7 +328,7 @@ fn issue(op: &Op, r: i64, i: usize, c: &mut Commands, acc: Option<&mut Access>, 
         Op::EEv(e, t, p) =>
         {
             let e = ent_entity(*e);
-            if *t == 1 { c.react().entity_event(e, E1(*p)); } else { c.react().entity_event(e, E2(*p)); }
+            if *t == 1 { c.react().entity_event(e, B1(*p)); } else { c.react().entity_event(e, B2(*p)); }
         }
         Op::Res(x) =>
         {
